@@ -67,11 +67,15 @@ def run(ctx):
     for name in sorted(found):
         for kind, kwargs in seed.FIXTURES.get(name, []):
             for shape in ([3, 3], [4, 5]):
-                for sd in (ctx.pick([7], [0, 7, 12345])):
+                for sd in (ctx.pick([7, 8], [0, 7, 12345])):
                     for fail_at in (None, 1, 2):
                         k += 1
                         jobs.append({"fn": name, "kind": kind, "kwargs": kwargs, "seed": sd, "shape": shape,
                                      "fail_at": fail_at, "k": k + ctx.seed})
+                # the function without a seed of its own, governed by a pipeline seed around it
+                k += 1
+                jobs.append({"fn": name, "kind": kind, "kwargs": kwargs, "seed": None, "outer": 77 + len(shape) + shape[0],
+                             "shape": shape, "fail_at": None, "k": k + ctx.seed})
     traces = check.pmap(seed.census_job, jobs, chunksize=4)
     broken = sorted({t["case"]["job"]["fn"] + ": " + t["fixture_error"] for t in traces if t["fixture_error"]})
     good = [t for t in traces if not t["fixture_error"]]
@@ -80,6 +84,16 @@ def run(ctx):
     ctx.notes["seeded_functions_uncovered"] = uncovered + broken
     if len({t["case"]["job"]["fn"] for t in good}) < 10:
         raise tlc.MachineryError(f"census covers too few functions: {broken}")
+    # a fixture whose output does not depend on the seed exercises nothing: machinery failure
+    by_fn: dict = {}
+    for t in good:
+        j = t["case"]["job"]
+        if j.get("outer") is None and j["fail_at"] is None:
+            outs = [e["out"] for e in t["events"] if e["e"] == "end"]
+            by_fn.setdefault((j["fn"], tuple(j["shape"])), {})[j["seed"]] = outs[0] if outs else None
+    dull = sorted({fn for (fn, _), d in by_fn.items() if len(d) >= 2 and len(set(d.values())) == 1})
+    if dull:
+        raise tlc.MachineryError(f"fixtures whose output does not depend on the seed: {dull}")
     ctx.cov["replayed_cases"] += len(good)
     ctx.sample({"function": good[0]["case"]["job"]["fn"], "events": good[0]["events"][:8]})
     validate(ctx, good, "census")
